@@ -20,7 +20,9 @@ R = Registry(
         "only from covered attributes, or is a class-level constant); the compiled cache is looked up and "
         "populated under one key that covers every argument forwarded to the compiler; every traversal symbol "
         "in use has a cache-key handler and a comparison handler; construct_params takes values from the "
-        "executing statement's parameters, never from the cached one."
+        "executing statement's parameters, never from the cached one; statement-level .params() values are "
+        "collected for the same statement classes and with the same nesting-level precedence whether the "
+        "cache key (cached) or the compiler (uncached) collects them."
     ),
     not_decided=(
         "that the key is not too fine (performance only); LRU behaviour at run time; keys of ORM loader "
@@ -635,11 +637,330 @@ def r4(ctx):
               "resolved_extracted is not zip(original binds, executing statement's extracted_parameters)", "zip(orig, extracted)", f.loc)
 
 
+# ---------------------------------------------------------------------- C02-R5: statement-level .params()
+# Statement-level parameter values set with ExecutableStatement.params() reach the execution on two paths:
+# cached -- HasCacheKey._gen_cache_key collects `_params` rows (dp_params) into CacheKey.params through
+# _CacheKeyTraversal.visit_params, in traversal-row order; uncached -- the compiler collects them while
+# rendering through SQLCompiler._add_to_params, called by the visit methods.  Transparency needs both paths
+# (a) to resolve a name given at several nesting levels in favour of the same level and (b) to collect the
+# `_params` of the same statement classes.
+PARAMS_COLLECTOR_CACHED = "sql/cache_key.py::_CacheKeyTraversal.visit_params"
+PARAMS_COLLECTOR_UNCACHED = f"{CMP}::SQLCompiler._add_to_params"
+# rows that may follow the dp_params row although their symbol can carry child elements
+R5_ROW_EXCEPTIONS = {
+    "_compile_options": "a CacheableOptions class / instance: plain option flags, never a statement carrying params",
+}
+
+
+def _as_merge(v: ast.expr) -> Optional[List[ast.expr]]:
+    """Operands of a two-mapping merge in 'the last one wins' order, or None."""
+    from ..oracles import load
+    sem = load("python_mapping_merge.json")["last_operand_wins"]
+    if isinstance(v, ast.BinOp) and isinstance(v.op, ast.BitOr) and sem["binop_or"]:
+        return [v.left, v.right]
+    if isinstance(v, ast.Call) and isinstance(v.func, ast.Attribute) and v.func.attr in ("union", "merge_with") \
+            and len(v.args) == 1 and not v.keywords and sem["method_" + v.func.attr]:
+        return [v.func.value, v.args[0]]
+    if isinstance(v, ast.Dict) and v.keys and all(k is None for k in v.keys) and len(v.values) == 2 and sem["dict_display_unpack"]:
+        return list(v.values)
+    # a constructor wrapped around a merge: immutabledict(a | b)
+    if isinstance(v, ast.Call) and len(v.args) == 1 and not v.keywords and (call_name(v) or "").rsplit(".", 1)[-1] in ("immutabledict", "dict"):
+        return _as_merge(v.args[0])
+    return None
+
+
+def _merge_winner(ctx, f: FuncInfo):
+    """In a collector function: the statement `ACC = merge(ACC, NEW)` where ACC is the accumulator that is stored
+    back and NEW derives from a parameter.  -> ('acc' | 'new', loc, text of the merge)."""
+    params = set(f.params) - {"self", "cls"}
+    found = []
+    for st in walk_stmts(f.node.body):
+        if not (isinstance(st, ast.Assign) and len(st.targets) == 1 and isinstance(st.targets[0], (ast.Attribute, ast.Subscript))):
+            continue
+        tgt = unparse(st.targets[0])
+        vals = [st.value]
+        if isinstance(st.value, ast.Name):
+            vals = [v for n, v, s2 in name_stores(f.node) if n == st.value.id and v is not None]
+        for v in vals:
+            ops = _as_merge(v)
+            if ops is None:
+                continue
+            acc = [i for i, o in enumerate(ops) if unparse(o) == tgt]
+            new = [i for i, o in enumerate(ops) if unparse(o) != tgt and ({n.id for n in ast.walk(o) if isinstance(n, ast.Name)} & params)]
+            if len(acc) == 1 and len(new) == 1:
+                found.append(("new" if new[0] > acc[0] else "acc", f"{f.module.path}:{v.lineno}", unparse(v)))
+    ctx.require(found, f"{f.key}: no `accumulator = merge(accumulator, new)` statement recognised (| / .union() / {{**a, **b}})")
+    ctx.require(len({w for w, _, _ in found}) == 1, f"{f.key}: merges with contradictory operand orders: {[t for _, _, t in found]}")
+    return found[0]
+
+
+def _traversal_rows(ctx, ev: Evaluator, c: ClassInfo):
+    """Own cache-key traversal rows [(attr, symbol short name)] of class c (its `_cache_key_traversal` if it
+    defines one, else its `_traverse_internals`), or None if it defines neither / not evaluable."""
+    for nm in ("_cache_key_traversal", "_traverse_internals"):
+        if nm in c.assigns:
+            node = c.assigns[nm][-1]
+            if isinstance(node, ast.Constant) and node.value is None:
+                continue
+            v = ev.eval(node, c.module, c)
+            if not isinstance(v, (list, tuple)):
+                return None
+            rows = []
+            for r in v:
+                if isinstance(r, tuple) and len(r) >= 2 and isinstance(r[0], str):
+                    rows.append((r[0], r[1].short if isinstance(r[1], Sym) else None))
+                else:
+                    return None
+            return rows
+    return None
+
+
+def _params_disabled(ctx, c: ClassInfo) -> Optional[FuncInfo]:
+    """The class's params() if it does nothing but raise (statement-level params can never be set)."""
+    f = ctx.index.resolve_method(c, "params")
+    if f is None:
+        return None
+    body = [st for st in f.node.body if not (isinstance(st, ast.Expr) and isinstance(st.value, ast.Constant))]
+    if body and all(isinstance(st, ast.Raise) for st in body):
+        return f
+    return None
+
+
+def _visit_name(ctx, c: ClassInfo) -> Optional[str]:
+    for k in ctx.index.mro(c):
+        vn = k.assigns.get("__visit_name__")
+        if vn and isinstance(vn[-1], ast.Constant) and isinstance(vn[-1].value, str):
+            return vn[-1].value
+    return None
+
+
+@R.rule("C02-R5", floor=60, template="T-SIBLING",
+        desc="statement-level .params(): the cached collector (cache-key traversal order + visit_params) and the "
+             "uncached collector (visit-method order + SQLCompiler._add_to_params) give the same nesting level "
+             "precedence on a name conflict, and collect the `_params` of the same statement classes")
+def r5(ctx):
+    ev = Evaluator(ctx.index, symbolic_classes={"InternalTraversal", "ExtendedInternalTraversal"})
+    fc = ctx.func(PARAMS_COLLECTOR_CACHED)
+    fu = ctx.func(PARAMS_COLLECTOR_UNCACHED)
+    win_c, loc_c, txt_c = _merge_winner(ctx, fc)
+    win_u, loc_u, txt_u = _merge_winner(ctx, fu)
+
+    # ---- cached path: where does the statement's own `_params` row stand relative to rows that hold children?
+    gct = ctx.index.cls("sql/traversals.py::_GetChildrenTraversal")
+    child_syms = {m[len("visit_"):] for m in gct.methods if m.startswith("visit_")}
+    ctx.require(len(child_syms) >= 8, "_GetChildrenTraversal lost its visit_* methods")
+    hck = _has_cache_key(ctx)
+    row_pos = []
+    keyed_classes = []
+    for c in sorted(ctx.index.all_classes(), key=lambda k: k.key):
+        if c.module.relpath.startswith("testing") or hck not in ctx.index.mro(c):
+            continue
+        rows = _traversal_rows(ctx, ev, c)
+        if not rows:
+            continue
+        idx = [i for i, (a, sym) in enumerate(rows) if sym == "dp_params"]
+        if not idx:
+            continue
+        ctx.require(len(idx) == 1, f"{c.key}: several dp_params rows")
+        dis = _params_disabled(ctx, c)
+        if dis is not None:
+            ctx.ok(f"{c.key}:_params", f"{dis.qualname}() only raises: statement-level params can never be set on this "
+                                       f"class, its `_params` row is always empty", nontrivial=False)
+            continue
+        keyed_classes.append(c)
+        i = idx[0]
+
+        def bearing(row):
+            a, sym = row
+            return sym is not None and sym[3:] in child_syms and a not in R5_ROW_EXCEPTIONS
+        before = [a for a, sym in rows[:i] if bearing((a, sym))]
+        after = [a for a, sym in rows[i + 1:] if bearing((a, sym))]
+        pos = "last" if not after else ("first" if not before else "middle")
+        row_pos.append((c, pos, before, after))
+    ctx.require(row_pos, "no statement class with a dp_params row")
+    from collections import Counter
+    major_c = Counter(p for _, p, _, _ in row_pos if p != "middle").most_common(1)
+    major_c = major_c[0][0] if major_c else "middle"
+    order_c = {major_c}
+    for c, pos, before, after in row_pos:
+        ctx.check(pos == major_c, f"{c.key}:_params-row-position",
+                  f"the `_params` row of {c.name}'s cache-key traversal stands {pos} among its child-bearing rows "
+                  f"(child rows after it: {after}; before it: {before[:4]}) while its sibling statement classes have it "
+                  f"{major_c}: {fc.qualname} merges `{txt_c}` in visiting order, so statements nested in those rows get "
+                  f"the opposite precedence against {c.name}.params() than they get in every other statement class",
+                  f"`_params` row visited {pos} ({len(before)} child-bearing rows before, {len(after)} after), like its siblings",
+                  c.loc)
+    ctx.require(len(keyed_classes) >= 5, f"only {len(keyed_classes)} statement classes with a dp_params row")
+
+    # ---- uncached path: is _add_to_params called before or after the visit method dispatches into children?
+    comp = ctx.index.cls(f"{CMP}::SQLCompiler")
+    call_pos = []
+    collected_visits: Dict[str, FuncInfo] = {}
+    short_u = fu.name
+    for cc in [ctx.index.cls(k) for k in COMPILERS]:
+        for m in cc.methods.values():
+            calls = [c for c in calls_in(m.node) if (call_name(c) or "") == f"self.{short_u}"]
+            if not calls:
+                continue
+            ctx.functions_analysed.add(m.key)
+            g = ctx.cfg(m)
+            elem = m.params[1] if len(m.params) > 1 else None
+            for c in calls:
+                ctx.require(c.args and isinstance(c.args[0], ast.Name), f"{m.key}: {short_u}() argument is not a plain name")
+                if m.name.startswith("visit_") and c.args[0].id == elem:
+                    collected_visits[m.name[len("visit_"):]] = m
+                nodes = g.nodes_containing(c)
+                ctx.require(nodes, f"{m.key}: {short_u}() call not found in the CFG")
+
+                def dispatches(n):
+                    if n.stmt is None or not isinstance(n.stmt, ast.stmt) or n.kind in ("with_exit", "handler", "join"):
+                        return False
+                    from ..astutil import own_exprs
+                    for part in own_exprs(n.stmt):
+                        for cl in calls_in(part):
+                            nm = call_name(cl) or ""
+                            if cl is c:
+                                continue
+                            if nm.endswith(("._compiler_dispatch", ".process")) or (nm.startswith("self.") and nm != f"self.{short_u}"):
+                                return True
+                    return False
+                disp = [n.id for n in g.nodes if dispatches(n)]
+                reach_from_disp = g.reachable(disp) if disp else set()
+                early = not any(n in reach_from_disp for n in nodes)
+                late = bool(disp) and not (g.reachable(nodes) & set(disp) - set(nodes))
+                pos = "first" if early else ("last" if late else "middle")
+                call_pos.append((m, c, pos))
+    ctx.require(len(collected_visits) >= 4, f"only {len(collected_visits)} visit methods call {short_u}()")
+    major_u = Counter(p for _, _, p in call_pos if p != "middle").most_common(1)
+    major_u = major_u[0][0] if major_u else "middle"
+    order_u = {major_u}
+    for m, c, pos in call_pos:
+        ctx.check(pos == major_u, f"{m.key}:{short_u}-position",
+                  f"{m.qualname} calls {short_u}({c.args[0].id}) {'after' if pos != 'first' else 'before'} it dispatches "
+                  f"into child elements while its sibling visit methods call it {major_u}: {fu.qualname} merges "
+                  f"`{txt_u}` in calling order, so statements nested inside this construct get the opposite "
+                  f"precedence than inside every other construct",
+                  f"{short_u}() runs {pos}, like its siblings", f"{m.module.path}:{c.lineno}")
+
+    # ---- (a) both paths favour the same nesting level
+    def level(win, orders, later_is):
+        if len(orders) != 1 or "middle" in orders:
+            return "mixed"
+        pos = next(iter(orders))
+        # cached: own row last => outer visited later;  uncached: call first => outer collected earlier
+        outer_is_later = (pos == "last") if later_is == "row" else (pos != "first")
+        return "outer" if (win == "new") == outer_is_later else "inner"
+    lev_c = level(win_c, order_c, "row")
+    lev_u = level(win_u, order_u, "call")
+    ctx.check(
+        lev_c == lev_u and lev_c != "mixed",
+        f"{fu.key}:precedence-agrees-with:{fc.key}",
+        f"a bind name given by .params() at two nesting levels resolves to the {lev_u.upper()} statement's value when "
+        f"the compiled cache is not used ({fu.qualname}: `{txt_u}`, called {'/'.join(sorted(order_u))} in the visit "
+        f"methods) but to the {lev_c.upper()} statement's value when it is used ({fc.qualname}: `{txt_c}`, `_params` row "
+        f"visited {'/'.join(sorted(order_c))}): the same statement executes with different parameter values "
+        f"depending on the cache",
+        f"both paths: {lev_c} statement wins (cached `{txt_c}` / row {'/'.join(sorted(order_c))}; uncached `{txt_u}` / "
+        f"call {'/'.join(sorted(order_u))})",
+        loc_u)
+
+    # ---- (b) both paths collect the `_params` of the same statement classes
+    byvisit = _element_classes(ctx)
+    compilers = [ctx.index.cls(k) for k in COMPILERS]
+    n_b = 0
+    for vn in sorted(byvisit):
+        has_visit = any(ctx.index.resolve_method(cc, "visit_" + vn) is not None for cc in compilers)
+        for c in sorted(byvisit[vn], key=lambda k: k.key):
+            status, keyed, owner = _effective_traversal(ctx, ev, c)
+            if status != "keyed" or _params_disabled(ctx, c) is not None or (c.name, "_params") in R1_EXCEPTIONS:
+                continue
+            cached = "_params" in keyed
+            fixed = None
+            for k in ctx.index.mro(c):
+                m = k.methods.get("_compiler_dispatch")
+                if m is not None and not m.type_only and k.module.relpath not in ("sql/visitors.py", "sql/annotation.py"):
+                    fixed = m
+                    break
+            if fixed is not None:
+                uncached = any((call_name(x) or "").endswith(f".{short_u}") for x in calls_in(fixed.node))
+                how = f"compiles through its own {fixed.qualname}, which never calls {short_u}()"
+                loc = fixed.loc
+            elif not has_visit:
+                continue  # no compiler renders this class by itself (abstract base)
+            else:
+                uncached = vn in collected_visits
+                how = f"no compiler's visit_{vn} calls {short_u}()"
+                loc = c.loc
+            if not cached and not uncached:
+                continue
+            n_b += 1
+            if cached and not uncached:
+                ctx.violation(
+                    f"{c.key}:_params-collected-uncached",
+                    f"{c.name} has a `_params` row in its effective cache key ({owner.key if owner else '?'}; collected "
+                    f"into CacheKey.params when the compiled cache is used) but {how}: values given with "
+                    f"{c.name}.params() are lost when the compiled cache is disabled or the statement is not "
+                    f"cacheable", loc)
+            elif uncached and not cached:
+                ctx.violation(
+                    f"{c.key}:_params-collected-cached",
+                    f"visit_{vn} collects {c.name}._params when the compiled cache is not used, but the class's "
+                    f"effective cache-key traversal ({owner.key if owner else '?'}) has no `_params` row: the values "
+                    f"are lost (and the key does not vary) when the cache is used", c.loc)
+            else:
+                ctx.ok(f"{c.key}:_params-collected", f"dp_params row in the key and {short_u}() in "
+                       f"{'its _compiler_dispatch' if fixed is not None else 'visit_' + vn}", nontrivial=False)
+    ctx.require(n_b >= 6, f"only {n_b} statement classes compared between the two collectors")
+
+
 # ---------------------------------------------------------------------- self-test battery
 SEL = "sql/selectable.py"
 R.mutant("select-for-update-unkeyed", SEL, sub('        ("_for_update_arg", InternalTraversal.dp_clauseelement),\n', "", count=2), "C02-R1")
 R.mutant("select-distinct-unkeyed", SEL, sub('            ("_distinct", InternalTraversal.dp_boolean),\n', ""), "C02-R1")
 R.mutant("compile-w-cache-drop-executemany", "sql/elements.py", sub("                for_executemany,\n            )\n            compiled_sql = compiled_cache.get(key)", "            )\n            compiled_sql = compiled_cache.get(key)"), "C02-R2")
 R.mutant("cachekey-handler-removed", "sql/cache_key.py", sub("    def visit_dml_values(", "    def visit_dml_values_removed("), "C02-R3")
-R.mutant("construct-params-reads-cached-bind", CMP, sub("                        value_param.effective_value", "                        bindparam.effective_value", count=1), "C02-R4")
+R.mutant("construct-params-reads-cached-bind", CMP, sub("\n                    pd[escaped_name] = value_param.effective_value\n", "\n                    pd[escaped_name] = bindparam.effective_value\n", count=1), "C02-R4")
+R.mutant("construct-params-reads-cached-bind-value", CMP, sub("\n                        pd[escaped_name] = value_param.value\n", "\n                        pd[escaped_name] = bindparam.value\n", count=1), "C02-R4")
 R.mutant("benign-traversal-extra-row", SEL, sub('            ("_distinct", InternalTraversal.dp_boolean),\n', '            ("_distinct", InternalTraversal.dp_boolean),\n            ("_verif_extra", InternalTraversal.dp_boolean),\n'), None)
+
+# ---- strengthening round (seeds C02/1, C02/2)
+DML = "sql/dml.py"
+# seed C02/1: a compiler-read flag dropped from Insert's traversal (caught by R1 before the round)
+R.mutant("seed1-insert-from-select-defaults-unkeyed", DML, sub(
+    '            (\n                "include_insert_from_select_defaults",\n                InternalTraversal.dp_boolean,\n            ),\n', ""), "C02-R1")
+R.mutant("benign-insert-traversal-rows-reordered", DML, sub(
+    '            ("_select_names", InternalTraversal.dp_string_list),\n            (\n                "include_insert_from_select_defaults",\n                InternalTraversal.dp_boolean,\n            ),\n',
+    '            (\n                "include_insert_from_select_defaults",\n                InternalTraversal.dp_boolean,\n            ),\n            ("_select_names", InternalTraversal.dp_string_list),\n'), None)
+# seed C02/2: operand order of the dict union in the uncached .params() collector
+R.mutant("seed2-add-to-params-inner-wins", CMP, sub(
+    "            self._collected_params = item._params | self._collected_params\n",
+    "            self._collected_params = self._collected_params.union(\n                item._params\n            )\n"), "C02-R5")
+R.mutant("cachekey-visit-params-inner-wins", "sql/cache_key.py", sub(
+    "                to_set = anon_map[CacheConst.PARAMS] | obj\n", "                to_set = obj | anon_map[CacheConst.PARAMS]\n"), "C02-R5")
+R.mutant("select-params-row-before-ctes", SEL, sub(
+    "        + HasCTE._has_ctes_traverse_internals\n        + HasPrefixes._has_prefixes_traverse_internals\n        + HasSuffixes._has_suffixes_traverse_internals\n"
+    "        + HasHints._has_hints_traverse_internals\n        + SupportsCloneAnnotations._clone_annotations_traverse_internals\n"
+    "        + ExecutableStatement._executable_traverse_internals\n",
+    "        + ExecutableStatement._executable_traverse_internals\n        + HasCTE._has_ctes_traverse_internals\n        + HasPrefixes._has_prefixes_traverse_internals\n"
+    "        + HasSuffixes._has_suffixes_traverse_internals\n        + HasHints._has_hints_traverse_internals\n"
+    "        + SupportsCloneAnnotations._clone_annotations_traverse_internals\n"), "C02-R5")
+R.mutant("textual-select-params-not-collected-uncached", CMP, sub(
+    "        if self._collect_params:\n            self._add_to_params(taf)\n", ""), "C02-R5")
+R.mutant("compound-select-collects-after-children", CMP, sub(
+    "        if self._collect_params:\n            self._add_to_params(cs)\n        toplevel = not self.stack\n\n        compile_state = cs._compile_state_factory(cs, self, **kwargs)\n",
+    "        toplevel = not self.stack\n\n        compile_state = cs._compile_state_factory(cs, self, **kwargs)\n"
+    "        prefetched = [self.process(s_, **kwargs) for s_ in ()]\n        if self._collect_params:\n            self._add_to_params(cs)\n"), "C02-R5")
+R.mutant("benign-add-to-params-union-spelling", CMP, sub(
+    "            self._collected_params = item._params | self._collected_params\n",
+    "            merged = util.immutabledict(item._params).union(\n                self._collected_params\n            )\n            self._collected_params = merged\n"), None)
+R.mutant("benign-compound-select-local-before-collect", CMP, sub(
+    "        if self._collect_params:\n            self._add_to_params(cs)\n        toplevel = not self.stack\n",
+    "        toplevel = not self.stack\n        if self._collect_params:\n            self._add_to_params(cs)\n"), None)
+R.mutant("benign-visit-params-renamed-local", "sql/cache_key.py", sub(
+    "                to_set = anon_map[CacheConst.PARAMS] | obj\n            else:\n                to_set = obj\n            anon_map[CacheConst.PARAMS] = to_set\n",
+    "                merged_params = anon_map[CacheConst.PARAMS] | obj\n            else:\n                merged_params = obj\n            anon_map[CacheConst.PARAMS] = merged_params\n"), None)
+# the repair of this round's finding (FromStatement collects its own `_params` on the uncached path) must be silent
+R.mutant("benign-fix-fromstatement-collects-params", "orm/context.py", sub(
+    '        """\n\n        compile_state = self._compile_state_factory(self, compiler, **kw)\n\n        toplevel = not compiler.stack\n',
+    '        """\n\n        if compiler._collect_params:\n            compiler._add_to_params(self)\n\n'
+    '        compile_state = self._compile_state_factory(self, compiler, **kw)\n\n        toplevel = not compiler.stack\n'), None)
